@@ -149,7 +149,7 @@ restart:
 	/* try to take care of unused patterns ... HARRRRRRD */
 	memset(paddr1, 0, sizeof(paddr1));
 	j = 0;
-	k = paddr[0];
+	k = paddr[0] & 3;	/* only used modulo 4; the address may be negative or INT_MAX */
 	/* 120 ... leaves 8 unused ptk_tableible patterns .. */
 	for (i = 0; i < 120; i++) {
 		paddr1[j] = paddr2[i];
